@@ -75,7 +75,7 @@ CHECKS = {
    technique="bounded exhaustive fault injection: models x catalogue x sites x layouts",
    design="3/C09"),
  "C14": dict(
-   text="Plain and modular models x both option values x permutations of the type-definition list x all schedules of the printer's three map-iteration sites (controlled iteration injected by source rewriting; each site fully permuted, plus all pairs of deviations) x JSON key orders: one byte string per (model, option), declarations in the documented order (independent sort), stripped source-information output equals plain output and parses to the same model; every model printed again after each of six failing variants of itself gives the same text.",
+   text="Plain and modular models x both option values x permutations of the type-definition list x all schedules of the printer's three map-iteration sites (controlled iteration injected by source rewriting; each site fully permuted, plus all pairs of deviations) x JSON key orders: one byte string per (model, option), declarations in the documented order (independent sort), stripped source-information output equals plain output and parses to the same model; every model printed again after each of six failing variants of itself gives the same text. JSON encodings: 4 key orders x 3 styles (compact; white space around every token with \\u-escaped strings; absent optional parts as explicit defaults). Twin names (case, natural order, separators) tied on (module, file).",
    note="Map order is owned through build-time rewriting of every range-over-map in pkg/go/transformer; protojson is atomic; items with a file but no module count as unattributed.",
    technique="exhaustive exploration of map-iteration schedules (stateless DFS over injected choice points) x input permutations",
    design="3/C14"),
